@@ -411,6 +411,8 @@ def _cuckoo(case, ctx, d):
                     outs.append(("ok", x.remove(k) if rem else x.add(k)))
                 except d.Full:
                     outs.append(("full", None))
+                except OverflowError:  # a bin already at the 32-bit limit refuses the increment: original and copies alike
+                    outs.append(("overflow", None))
         ctx.check("C05.suffix", all(x == outs[0] for x in outs), lambda: f"{K.__name__}: further operation gave {outs} on original and copies")
         for name, x in copies:
             ctx.check("C05.suffix", bytes(x) == bytes(o), f"{K.__name__} -> {name}: diverged from the original after the same further operations")
